@@ -29,6 +29,7 @@ var c13Strings = []string{
 	"24:00", "10", "10:00", "10:00:00", "10:00:00.5", "10:00:00.500", "T10:00:00", "@T10:00:00", "10:60", "1:00", "10:00:00Z",
 	"5 'mg'", "5", "5 days", "5 day", "5  mg", "5 mg", "5'mg'", "5 ''", "5.5 'mg'", "-5 'mg'", "+5 'mg'", "5 'mg", "5 m g", "five", "5 weeks", "5 year", "5 '1'", "5 1",
 	"", " ", "abc", "é", "null", "{}",
+	"١٢٣", "１２.５", "-४२", "1.٥", "２０２０-０１-０１", "１０:００", "５ 'mg'", "－5", "+１", "𝟙", "truе",
 }
 
 func c13Pool() []Val {
